@@ -16,7 +16,7 @@ text=f'''
 
 {n} changes (one aimed at each of the 19 properties, a second one for C02-C05, C07-C09, C11-C13, C15, C16, a third one for
 C01, C02, C04, C06, C07, C10, C18, C19, a fourth-round one for C03, C05, C09, C11, C12, C15, C16 and a fifth-round one for
-C02, C04, C06, C07, C10, C18, C19) were written by
+C02, C04, C06, C07, C10, C18, C19 and a sixth-round one for C03, C05, C09, C12, C13, C14, C15, C16) were written by
 fresh sub-agents that were given only the text of one property and a scratch worktree of /repo under /tmp (nothing from
 /verif); each was asked for a change that compiles, keeps the 268 pinned tests green and needs something specific to
 manifest, with a demonstration that fails with the change and passes without it. Every change was re-confirmed by
@@ -24,11 +24,12 @@ manifest, with a demonstration that fails with the change and passes without it.
 stored as `seeded/<id>/{{patch.diff, seed_demo.rs (or .sh), README.md, meta.json}}`; the worktrees and their build output
 were removed afterwards. To run the checks against a change `tools/run_seed.sh <id> <checks>` applies the patch to /repo
 (`git apply`), runs `./check`, and undoes it (`git checkout -- .`); nothing of this was ever committed to /repo. No
-request was refused by the permission system or a safety layer, by a sub-agent or by me. Fourteen later agents (second round: C01, C06, C10, C14, C17, C18, C19; third round: C14, C17; fourth round: C08, C13; fifth round: C01, C14, C17) came back with the same change as an
+request was refused by the permission system or a safety layer, by a sub-agent or by me. Sixteen later agents (second round: C01, C06, C10, C14, C17, C18, C19; third round: C14, C17; fourth round: C08, C13; fifth round: C01, C14, C17; sixth round: C08, C11) came back with the same change as an
 earlier one (for C06: the change already stored for C17): not stored twice. The third round's prompt added one sentence asking
 for a less obvious place than the first function that comes to mind, which produced changes in lib.rs orchestration code;
 the fifth round's prompt additionally asked to avoid the one function where the property's main mechanism lives (changes in the
-CLI's file writer, the APNG pre-pass, the deflater wrapper and the scan-line iterator's pass bookkeeping).
+CLI's file writer, the APNG pre-pass, the deflater wrapper and the scan-line iterator's pass bookkeeping). The sixth round (same
+prompt) was reported by every targeted check at the first run: all eight stored changes, and the two duplicates as well.
 
 Result: **all {n} are reported by the check of the property they target**, {n-len(missed)} at the first run and {len(missed)} only after
 the check was strengthened (the miss and the remedy are in the table; every remedy is a wider generator, a new stream or
